@@ -198,6 +198,10 @@ def step (st : State) (w : List String) : State × String :=
     match hexBytes h with
     | some s => let r := b64Decode s; (st, (if r.2 then "ok " else "err ") ++ bytesHex r.1)
     | none => (st, "bad-op")
+  | ["b64", "enc", h] =>
+    match hexBytes h with
+    | some b => (st, bytesHex (b64Encode b))
+    | none => (st, "bad-op")
   | ["kt", "tag", fl, pr, al, pk] =>
     match fl.toNat?, pr.toNat?, al.toNat?, hexBytes pk with
     | some flags, some proto, some alg, some pkb => (st, toString (modelKeyTag flags proto alg pkb))
